@@ -173,4 +173,37 @@ PROPS = {
                              "duplicates_rejected": 2000, "too_deep_rejected": 1000}},
         "assumptions": COMMON_ASSUMPTIONS + ["the wasm binding is not executed (no wasm target); its only logic, Scheme: Deserialize with owned keys, is exercised through from_reader/from_value"],
     },
+    "C16": {
+        "rule": ("sequences: ALL sequences of length <=4 (thorough <=5) over 20 op instances - for each of the colliding "
+                 "names x, x.y, x.y.z, X, xy, x_y one add_field(Int), one add_optional_field(Bytes), one add_function, "
+                 "plus add_list(Int) and add_list(Bytes) - replayed against an abstract registry: every add_* result "
+                 "(including WHICH kind is reported as holding the name), then on the built scheme field_count/"
+                 "function_count/list_count, fields()/functions()/lists() order, index, type, optionality, get_field/"
+                 "get_function/get_list for 24 names (pool names, prefixes, extensions, case variants), and parsing "
+                 "`name == 1`, `name == \"a\"`, `name`, `name() == 7` which must resolve by complete name and kind only; "
+                 "random: sequences of length 6-12 over a 33-instance pool; identity: clones equal, identical rebuilds "
+                 "unequal, foreign fields refused. distinct_nontrivial = distinct sequences of length >=2."),
+        "quick": [st("rel")],
+        "thorough": [st("rel"), st("dbg")],
+        "floors": {"quick": {"evaluations": 180000, "distinct_nontrivial": 150000, "rejected_adds": 100000}},
+        "assumptions": COMMON_ASSUMPTIONS,
+        "technique": "runtime monitoring: bounded-exhaustive operation histories replayed against an abstract registry model",
+    },
+    "C17": {
+        "rule": ("delegation: one `lhs in $name` comparison (lhs = field, index path, map-each path under any/all, call "
+                 "result; optionally negated) over harness list definitions for Int/Ip/Bytes registered in all 6 "
+                 "orders, x 4 contexts whose named sets are seeded with values the lhs evaluates to; the result must "
+                 "equal set membership and the (name, value) queries logged by the harness matcher must equal the "
+                 "expected sequence; mixed: random filters containing list comparisons; names: valid names and names "
+                 "with a foreign character inside / leading / trailing dot / empty in 4 syntactic contexts; no-list: "
+                 "all 8 subsets of registered list types x 8 filters; builtin: always/never lists on all three types; "
+                 "history: 6-20 random steps of mutate-matcher (through get_list_matcher_mut + downcast), clear, "
+                 "serialise+deserialise, execute against a model of the matcher state. distinct_nontrivial = distinct "
+                 "filter texts whose evaluation queried a matcher / distinct histories."),
+        "quick": [st("rel")],
+        "thorough": [st("rel"), st("dbg")],
+        "floors": {"quick": {"evaluations": 80000, "distinct_nontrivial": 8000, "matcher_queries": 15000,
+                             "matcher_hits": 5000, "history_steps": 10000}},
+        "assumptions": COMMON_ASSUMPTIONS,
+    },
 }
